@@ -181,7 +181,8 @@ def fnApply (f : Fn) (args : List Val) : Option Val :=
   items.bind fun xs => (allNums xs).bind fun qs =>
     (foldNums (match f with | .max => ratMax | .min => ratMin) qs).map .num
 
-/-! ## `getattr(v, "__op__")(w)`: what Scenic's `OperatorDistribution.sampleGiven` calls -/
+/-! ## `getattr(v, "__op__")(w)`: what `VectorOperatorDistribution.sampleGiven` calls
+(`OperatorDistribution.sampleGiven` applies `operator.add` & co. to the sampled operands, i.e. `pyBin`) -/
 
 inductive Call where
   | noAttr            -- `getattr` raises AttributeError
@@ -216,14 +217,10 @@ def dunder (op : BinOp) (refl : Bool) (v w : Val) : Call :=
       | op, w => ofOpt (if refl then seqBin op w v else seqBin op v w))
   | v, w => ofOpt (if refl then seqBin op w v else seqBin op v w)
 
-/-- `OperatorDistribution.sampleGiven` for a reversible binary operator, as written with `getattr` and the
-    `NotImplemented` fallback: `first` is the sampled object of the node, `rest` the sampled operand. -/
-def sampleBin (op : BinOp) (refl : Bool) (first rest : Val) : Option Val :=
+/-- `getattr(first, "__op__")(rest)` without any fallback: `VectorOperatorDistribution.sampleGiven` -/
+def callDunder (op : BinOp) (refl : Bool) (first rest : Val) : Option Val :=
   match dunder op refl first rest with
   | .ret v => some v
-  | .notImpl => (match dunder op (!refl) rest first with
-      | .ret v => some v
-      | _ => none)
   | _ => none
 
 /-! ## Expressions, static value types, the forest -/
@@ -263,6 +260,7 @@ structure Tables where
   vecOps : List (BinOp × Bool × Bool)    -- (op, reflected, zeroIdentity) installed on VectorDistribution
   pythonDispatch : Bool                  -- sampleGiven applies operator.add & co. to the sampled operands
   vecHandlerAcceptsSeq : Bool            -- the zero test of makeVectorOperatorHandler iterates tuples/lists too
+  vecOpsWrapOperands : Bool              -- the vector operators wrap their operands with toDistribution
   deriving Repr
 
 /-- the identities that are sound on numbers: `x + 0`, `0 + x`, `x - 0`, `x * 1`, `1 * x`, `x / 1`, `x ** 1` -/
@@ -275,10 +273,16 @@ def entryOK (e : SimpEntry) : Bool :=
   | .pow, false, 1 => true
   | _, _, _ => false
 
-/-- well-formedness of the generated tables (re-decided on the regenerated data on every run) -/
+/-- well-formedness of the generated tables (re-decided on the regenerated data on every run): every identity
+    simplification is one of the sound ones, the vector operators carry the zero-identity flags the model of
+    `Vector.__add__` & co. assumes, and the three code shapes the model below is a model of are in place
+    (`OperatorDistribution.sampleGiven` uses Python's own dispatch; the zero test of the VectorDistribution handler
+    accepts tuples/lists; the vector operators wrap their operands with `toDistribution`).  When one of the
+    three flags is false the code is not the code modelled here and the theorems say nothing about it. -/
 def Tables.WF (T : Tables) : Bool :=
   T.simp.all entryOK &&
-  T.vecOps.all fun e => e.2.2 == vecZeroIdentity e.1 e.2.1 && vecHas e.1 e.2.1
+  (T.vecOps.all fun e => e.2.2 == vecZeroIdentity e.1 e.2.1 && vecHas e.1 e.2.1) &&
+  T.pythonDispatch && T.vecHandlerAcceptsSeq && T.vecOpsWrapOperands
 
 /-- the objects Scenic's compile-time evaluation manipulates -/
 inductive Node where
@@ -388,30 +392,38 @@ def simplifies (T : Tables) (op : BinOp) (refl : Bool) (self arg : Node) : Bool 
 def handler (T : Tables) (op : BinOp) (refl : Bool) (self arg : Node) : Node :=
   if simplifies T op refl self arg then self else .opd2 op refl self (toDist arg)
 
-def isZero3 : Val → Option Bool      -- `all(coord == 0 for coord in arg.coordinates)`; none = AttributeError
-  | .vec x y z => some (x == 0 && y == 0 && z == 0)
-  | _ => none
-
 def vecOpsLookup (T : Tables) (op : BinOp) (refl : Bool) : Option Bool :=
   (T.vecOps.find? (fun e => e.1 == op && e.2.1 == refl)).map (·.2.2)
 
 /-- `VectorDistribution.__op__` (makeVectorOperatorHandler), for the operators in `T.vecOps`;
     other operators fall back to `handler` -/
+def vhandlerCore (op : BinOp) (refl : Bool) (zeroIdentity : Bool) (self arg : Node) : Node :=
+  if zeroIdentity && !arg.isLazy then
+    match arg with
+    | .const v =>
+      -- `isinstance(args[0], (Vector, tuple, list, numpy.ndarray)) and all(coord == 0 for coord in args[0])`
+      if isZeroOperand v then self else .vop op refl self arg
+    | _ => .fail                       -- (only a failed operand is neither lazy nor a constant here)
+  else .vop op refl self arg
+
 def vhandler (T : Tables) (op : BinOp) (refl : Bool) (self arg : Node) : Node :=
   match vecOpsLookup T op refl with
   | none => handler T op refl self arg
   | some zeroIdentity =>
-    if zeroIdentity && !arg.isLazy then
-      match arg with
-      | .const v =>
-        if T.vecHandlerAcceptsSeq then
-          (if isZeroOperand v then self else .vop op refl self arg)
-        else (match isZero3 v with
-          | some true => self
-          | some false => .vop op refl self arg
-          | none => .fail)
-      | _ => .fail                       -- a raw tuple has no `.coordinates` / contains random values
-    else .vop op refl self arg
+    -- `args = tuple(toDistribution(arg) for arg in args)`: raw tuples/lists become TupleDistributions
+    vhandlerCore op refl zeroIdentity self (toDist arg)
+
+/-- the `vectorOperator` helper after its operand has been wrapped with `toDistribution` -/
+def vecApply (T : Tables) (op : BinOp) (refl : Bool) (self arg : Node) : Node :=
+  if arg.isLazy then
+    match self with
+    | .const (.vec x y z) => .vmeth op refl x y z arg
+    | _ => .vop op refl self arg
+  else
+    match arg with
+    | .const v =>
+      if vecOpsLookup T op refl == some true && isZeroOperand v then self else .vop op refl self arg
+    | _ => .fail        -- (only a failed operand is neither lazy nor a constant here)
 
 /-- `Vector.__op__(self, arg)` (`refl`: `Vector.__rop__`) where `self` is a (possibly random-coordinate) Vector:
     the `vectorOperator` helper -/
@@ -421,15 +433,8 @@ def vecHelperCore (T : Tables) (op : BinOp) (refl : Bool) (self arg : Node) : No
     (if arg.isDist && !refl then (if arg.isVecDist then vhandler T op true arg self else handler T op true arg self)
      else .fail)
   else
-  if arg.isLazy then
-    match self with
-    | .const (.vec x y z) => .vmeth op refl x y z arg
-    | _ => .vop op refl self arg
-  else
-    match arg with
-    | .const v =>
-      if vecOpsLookup T op refl == some true && isZeroOperand v then self else .vop op refl self arg
-    | _ => .fail        -- raw tuple operands of vector operators are outside the model
+  -- `args = tuple(toDistribution(arg) for arg in args)`: raw tuples/lists become TupleDistributions
+  vecApply T op refl self (toDist arg)
 
 /-- `Vector.__rmul__` is the undecorated `return self.__mul__(other)` -/
 def vecHelper (T : Tables) (op : BinOp) (refl : Bool) (self arg : Node) : Node :=
@@ -443,6 +448,12 @@ def optNode : Option Val → Node
   | some v => .const v
   | none => .fail
 
+/-- the repetition `xs * n` of a raw tuple/list, done by Python while compiling -/
+def rawRepeat (k : Bool) (xs : List Node) (n : Rat) : Node :=
+  match asIndex n with
+  | some i => if i ≤ 0 then .const (.seq k []) else .rawt k (repeatList i xs)
+  | none => .fail
+
 /-- `c op r` where `c` is a constant that is not a Vector and `r` is not a constant: Python tries `type(c).__op__`,
     which does not know `r`, then `r.__rop__(c)` -/
 def constLeft (T : Tables) (op : BinOp) (c : Val) (l r : Node) : Node :=
@@ -450,12 +461,24 @@ def constLeft (T : Tables) (op : BinOp) (c : Val) (l r : Node) : Node :=
   else if r.isDist then handler T op true r l
   else match r with
     | .vecOf .. => vecHelper T op true r l
-    | .rawt k ys => (match op, c with
-        | .add, .seq k' xs => if k == k' then .rawt k (xs.map .const ++ ys) else .fail
-        | .mul, .num n => (match asIndex n with
-            | some i => if i ≤ 0 then .const (.seq k []) else .rawt k (repeatList i ys)
-            | none => .fail)
-        | _, _ => .fail)
+    | .rawt k ys => (match c with
+        | .seq k' xs => if op == .add && k == k' then .rawt k (xs.map .const ++ ys) else .fail
+        | .num n => if op == .mul then rawRepeat k ys n else .fail
+        | _ => .fail)
+    | _ => .fail
+
+/-- `l op r` where `l` is the raw tuple/list `xs` (a plain Python container holding random values): concatenation
+    and repetition are done by Python itself; otherwise `tuple.__op__` does not know `r` and Python tries
+    `r.__rop__(l)` -/
+def rawLeft (T : Tables) (op : BinOp) (k : Bool) (xs : List Node) (l r : Node) : Node :=
+  if r.isVecDist then vhandler T op true r l
+  else if r.isDist then handler T op true r l
+  else match r with
+    | .vecOf .. => vecHelper T op true r l
+    | .const (.vec ..) => vecHelper T op true r l
+    | .rawt k' ys => if op == .add && k == k' then .rawt k (xs ++ ys) else .fail
+    | .const (.seq k' ys) => if op == .add && k == k' then .rawt k (xs ++ ys.map .const) else .fail
+    | .const (.num n) => if op == .mul then rawRepeat k xs n else .fail
     | _ => .fail
 
 /-- `l op r` where not both operands are constants and neither failed -/
@@ -471,14 +494,7 @@ def binGen (T : Tables) (op : BinOp) (l r : Node) : Node :=
       -- str.__mod__ succeeds on any object (formats it): outside the model
       if op == .mod then .fail else constLeft T op (.str s) l r
     | .const c => constLeft T op c l r
-    | .rawt k xs =>
-      (match op, r with
-       | .add, .rawt k' ys => if k == k' then .rawt k (xs ++ ys) else .fail
-       | .add, .const (.seq k' ys) => if k == k' then .rawt k (xs ++ ys.map .const) else .fail
-       | .mul, .const (.num n) => (match asIndex n with
-           | some i => if i ≤ 0 then .const (.seq k []) else .rawt k (repeatList i xs)
-           | none => .fail)
-       | _, r => if r.isVecDist then vhandler T op true r l else if r.isDist then handler T op true r l else .fail)
+    | .rawt k xs => rawLeft T op k xs l r
     | _ => .fail
 
 /-- Python evaluating `l op r` at compile time, where `l`, `r` are the already-built operands -/
@@ -620,14 +636,15 @@ mutual
     | .leaf i ty => leafVal env i ty
     | .opd2 op refl obj arg =>
       (evalNode T env obj).bind fun a => (evalNode T env arg).bind fun b =>
-        if T.pythonDispatch then (if refl then pyBin op b a else pyBin op a b) else sampleBin op refl a b
+        -- `binaryOperatorFunctions[self.symbol]` applied to the sampled operands (swapped for `__rop__` nodes)
+        if refl then pyBin op b a else pyBin op a b
     | .opd1 op obj => (evalNode T env obj).bind (pyUn op)
     | .geti obj idx => (evalNode T env obj).bind fun a => (evalNode T env idx).bind fun b => pyGetitem a b
     | .lend obj => (evalNode T env obj).bind pyLen
     | .attrd name obj => (evalNode T env obj).bind (pyAttr name)
     | .vop op refl obj arg =>
       (evalNode T env obj).bind fun a => (evalNode T env arg).bind fun b =>
-        (match dunder op refl a b with | .ret v => some v | _ => none)
+        callDunder op refl a b
     | .vmeth op refl x y z arg => (evalNode T env arg).bind fun b => vecMethod op refl x y z b
     | .vecOf x y z =>
       (evalNode T env x).bind fun a => (evalNode T env y).bind fun b => (evalNode T env z).bind fun c => mkVec a b c
